@@ -279,6 +279,34 @@ def check(model, rep):
     rep.count('slice components checked', n_sl)
     rep.floor('R17.1', '@jit kernels', len(ks), 40)
     rep.floor('R17.1', 'integer index components', n_int, 150)
+    # ---------------------------------------------------------------- R17.3
+    # Direction of the (screw table, joint vector) contract.  The Python layers hand these kernels the arm's WHOLE screw table together
+    # with a joint vector of the caller's length (Arm.FK clamps `theta[0:len(theta)]` against prefixes of the limits: a vector shorter than
+    # the chain is accepted and means "remaining joints at home").  Every kernel below is driven by the joint vector today: with a table
+    # that has MORE columns than the vector has entries all its indices stay in bounds.  Decided by re-running the interval analysis
+    # with cols(table) = n + slack, slack >= 0 unknown: an index that is only in bounds when slack = 0 reads past the joint vector.
+    rep.rule('R17.3', 'kernels taking (screw table, joint vector) are driven by the joint vector: every index stays in bounds when the table has more '
+                      'columns than the vector has entries')
+    DRIVEN = ('FKinBody', 'FKinSpace', 'JacobianBody', 'JacobianSpace', 'IKinBody', 'IKinSpace', 'IKinSpaceConstrained')
+    n_driven = 0
+    for fi in sorted(ks, key=lambda f: f.key):
+        if fi.name not in DRIVEN or fi.name not in CONTRACTS:
+            continue
+        contract = dict(CONTRACTS[fi.name])
+        tabs = [p_ for p_, sh in contract.items() if isinstance(sh, tuple) and len(sh) == 2 and sh[0] == 6 and sh[1] == 'n']
+        if not tabs or not any(sh == ('n',) for sh in contract.values()):
+            continue
+        for t_ in tabs:
+            contract[t_] = (6, 'n+slack')
+        b = Bounds(fi.node, contract, RETURNS, callee_contracts=callee_contracts).run()
+        n_driven += 1
+        bad = [(s_.node, s_.text, s_.msg) for s_ in b.sites if not s_.ok] + [(n_, ast.unparse(n_)[:60], why) for n_, why in b.unresolved if 'slack' in why]
+        rep.ob('R17.3', fi, '%s: indices in bounds for cols(%s) >= len(joint vector)' % (fi.name, ', '.join(tabs)), not bad,
+               ('%s: %s - the index is bounded by the column count of %s, not by the length of the joint vector: called with a joint vector shorter '
+                'than the screw table (Arm.FK(theta[:k]) passes the whole table) the compiled kernel reads past the end of the vector '
+                '(IndexError under NUMBA_BOUNDSCHECK / in the interpreter, neighbouring memory otherwise)' % (bad[0][1], bad[0][2], ', '.join(tabs))) if bad else 'driven by the joint vector',
+               line=bad[0][0].lineno if bad else None)
+    rep.floor('R17.3', 'kernels taking a screw table and a joint vector', n_driven, 7)
     # ---------------------------------------------------------------- R17.2
     kernel_by_name = {fi.name: fi for fi in ks}
     _envs = {}
